@@ -114,6 +114,24 @@ func deleteBlob(s *storage.Store, key uint64, cookie uint32) (int, error) {
 	return int(sz), err
 }
 
+// deleteLikeHandler deletes the way the volume server's HTTP DeleteHandler does: it
+// reads the needle first (cookie check), then hands that same, now fully hydrated,
+// needle object to the delete call. A blob that cannot be read is not deleted (404).
+func deleteLikeHandler(s *storage.Store, key uint64, cookie uint32) (int, error) {
+	n := new(needle.Needle)
+	n.Id = types.NeedleId(key)
+	n.Cookie = types.Cookie(cookie)
+	if _, err := s.ReadVolumeNeedle(vid, n, nil); err != nil {
+		return 0, nil
+	}
+	if uint32(n.Cookie) != cookie {
+		return 0, fmt.Errorf("cookie of stored needle %x does not match %x", uint32(n.Cookie), cookie)
+	}
+	n.LastModified = 1600000001
+	sz, err := s.DeleteVolumeNeedle(vid, n)
+	return int(sz), err
+}
+
 // readBlob returns found=false for every kind of "not there" answer (not found,
 // deleted, or any read error); err carries the reason.
 func readBlob(s *storage.Store, key uint64) (n *needle.Needle, found bool, err error) {
